@@ -8,6 +8,12 @@ package props
 // write paths of the real library into a map-backed node. Records accepted / rejected / panic and
 // what the leaf holds afterwards. Coq (Check/C05Check.v) runs the model on the restriction TEXT and
 // the spec on the abstract syntax.
+//
+// A second family (c5genShared) puts 2-4 string leaves into ONE module; their pattern statements
+// repeat the same generated regular expression with differing invert-match modifiers (on the leaf's
+// type, on its own typedefs or on a typedef chain shared with the first leaf). Every leaf is a case
+// of its own, judged on its own chain: whatever another statement with the same text says must not
+// leak into it. The values include strings sampled from the expression's language and near misses.
 
 import (
 	"bytes"
@@ -49,6 +55,7 @@ type c5alt struct {
 type c5pat struct {
 	re     string
 	invert bool
+	rx     *c5rx // the syntax a generated expression was printed from (nil: taken from c5patPool)
 }
 
 type c5level struct {
@@ -74,6 +81,25 @@ type c5type struct {
 	bits   []string
 	isList bool
 	levels []c5level // leaf's own type statement first
+	// the leaf's identifier ("" = "l") and the names of the typedefs of levels 1..n-1 (nil = t1..);
+	// noDecl: the typedefs are declared by another leaf of the same module (shared typedef chain)
+	name    string
+	tdNames []string
+	noDecl  bool
+}
+
+func (t *c5type) ident() string {
+	if t.name == "" {
+		return "l"
+	}
+	return t.name
+}
+
+func (t *c5type) tdName(i int) string { // name of the typedef that carries level i (1-based)
+	if t.tdNames != nil {
+		return t.tdNames[i-1]
+	}
+	return fmt.Sprintf("t%d", i)
 }
 
 var c5kinds = []string{"int8", "int16", "int32", "int64", "uint8", "uint16", "uint32", "uint64"}
@@ -161,14 +187,25 @@ func c5exprText(r *gen.Rng, alts []c5alt) string {
 	return strings.Join(parts, "|")
 }
 
-func (t *c5type) yang() string {
+func (t *c5type) yang() string { return c5moduleText([]*c5type{t}) }
+
+// one module holding the typedef chains and leaves of all the types, in order
+func c5moduleText(ts []*c5type) string {
 	var b strings.Builder
 	b.WriteString("module m { prefix \"\"; namespace \"\"; revision 0;\n")
+	for _, t := range ts {
+		t.body(&b)
+	}
+	b.WriteString("}\n")
+	return b.String()
+}
+
+func (t *c5type) body(b *strings.Builder) {
 	n := len(t.levels)
 	typeStmt := func(i int) string {
 		name := t.base
 		if i < n-1 {
-			name = fmt.Sprintf("t%d", i+1)
+			name = t.tdName(i + 1)
 		}
 		var sub []string
 		if i == n-1 {
@@ -204,15 +241,14 @@ func (t *c5type) yang() string {
 		}
 		return "type " + name + " { " + strings.Join(sub, " ") + " }"
 	}
-	for i := n - 1; i >= 1; i-- {
-		fmt.Fprintf(&b, "  typedef t%d { %s }\n", i, typeStmt(i))
+	for i := n - 1; i >= 1 && !t.noDecl; i-- {
+		fmt.Fprintf(b, "  typedef %s { %s }\n", t.tdName(i), typeStmt(i))
 	}
 	kw := "leaf"
 	if t.isList {
 		kw = "leaf-list"
 	}
-	fmt.Fprintf(&b, "  %s l { %s }\n}\n", kw, typeStmt(0))
-	return b.String()
+	fmt.Fprintf(b, "  %s %s { %s }\n", kw, t.ident(), typeStmt(0))
 }
 
 // a level carries a range (length) statement when it has syntax or an (invalid) text
@@ -442,7 +478,7 @@ func (v c5value) native(t *c5type) interface{} {
 	return l
 }
 
-func (v c5value) xml() (string, bool) {
+func (v c5value) xml(ident string) (string, bool) {
 	var b bytes.Buffer
 	b.WriteString("<m>")
 	if len(v.items) == 0 {
@@ -452,9 +488,9 @@ func (v c5value) xml() (string, bool) {
 		if s.text() == "" {
 			return "", false
 		}
-		b.WriteString("<l>")
+		b.WriteString("<" + ident + ">")
 		xml.EscapeText(&b, []byte(s.text()))
-		b.WriteString("</l>")
+		b.WriteString("</" + ident + ">")
 	}
 	b.WriteString("</m>")
 	return b.String(), true
@@ -569,9 +605,10 @@ var c5pathNames = []string{"UpsertFrom(JSON)", "SetValue(native)", "Set(val.Valu
 
 // returns applicable=false when the path cannot express the value
 func c5write(path int, t *c5type, m *meta.Module, b *node.Browser, v c5value) (applicable bool, err error) {
+	id := t.ident()
 	switch path {
 	case 0, 5, 6:
-		n, e := nodeutil.ReadJSON(`{"l":` + v.json(path == 6) + `}`)
+		n, e := nodeutil.ReadJSON(`{"` + id + `":` + v.json(path == 6) + `}`)
 		if e != nil {
 			return false, nil
 		}
@@ -583,24 +620,24 @@ func c5write(path int, t *c5type, m *meta.Module, b *node.Browser, v c5value) (a
 		}
 		return true, b.Root().InsertFrom(n)
 	case 1:
-		sel, e := b.Root().Find("l")
+		sel, e := b.Root().Find(id)
 		if e != nil || sel == nil {
 			return false, nil
 		}
 		return true, sel.SetValue(v.native(t))
 	case 2:
-		lm := meta.Find(m, "l").(meta.Leafable)
+		lm := meta.Find(m, id).(meta.Leafable)
 		w := c5typed(t, lm.Type(), v)
 		if w == nil {
 			return false, nil
 		}
-		sel, e := b.Root().Find("l")
+		sel, e := b.Root().Find(id)
 		if e != nil || sel == nil {
 			return false, nil
 		}
 		return true, sel.Set(w)
 	case 3:
-		x, ok := v.xml()
+		x, ok := v.xml(id)
 		if !ok {
 			return false, nil
 		}
@@ -610,7 +647,7 @@ func c5write(path int, t *c5type, m *meta.Module, b *node.Browser, v c5value) (a
 		}
 		return true, b.Root().UpsertFrom(n)
 	case 4:
-		src := map[string]interface{}{"l": v.native(t)}
+		src := map[string]interface{}{id: v.native(t)}
 		return true, b.Root().UpsertFrom(nodeutil.ReflectChild(src))
 	}
 	return false, nil
@@ -623,9 +660,10 @@ type c5obs struct {
 
 // one write of v through path onto a store that holds pre (nil = absent)
 func c5observe(path int, t *c5type, m *meta.Module, pre *c5value, v c5value) (o c5obs, applicable bool) {
+	id := t.ident()
 	data := map[string]interface{}{}
 	b := node.NewBrowser(m, nodeutil.ReflectChild(data))
-	lm := meta.Find(m, "l").(meta.Leafable)
+	lm := meta.Find(m, id).(meta.Leafable)
 	var preWant val.Value
 	if pre != nil {
 		func() {
@@ -633,7 +671,7 @@ func c5observe(path int, t *c5type, m *meta.Module, pre *c5value, v c5value) (o 
 			c5write(0, t, m, b, *pre)
 		}()
 		preWant = c5want(t, lm.Type(), *pre)
-		got, _ := b.Root().GetValue("l")
+		got, _ := b.Root().GetValue(id)
 		if !c5same(got, preWant) || preWant == nil {
 			return o, false // the pre-state could not be established
 		}
@@ -664,17 +702,17 @@ func c5observe(path int, t *c5type, m *meta.Module, pre *c5value, v c5value) (o 
 				o.store = 2
 			}
 		}()
-		got, _ = b.Root().GetValue("l")
+		got, _ = b.Root().GetValue(id)
 	}()
 	want := c5want(t, lm.Type(), v)
 	if path == 2 {
 		want = c5typed(t, lm.Type(), v)
 		// an undeclared enum / bits value cannot be read back through the library (the read
 		// converts again); look at what the map holds
-		if raw, ok := data["l"].(val.Value); ok && (t.base == "enumeration" || t.base == "bits") {
+		if raw, ok := data[id].(val.Value); ok && (t.base == "enumeration" || t.base == "bits") {
 			got = raw
 		}
-		if u, ok := data["l"].(uint64); ok && t.base == "bits" {
+		if u, ok := data[id].(uint64); ok && t.base == "bits" {
 			got = val.Bits{Positions: u}
 		}
 	}
@@ -858,13 +896,13 @@ func c5genType(r *gen.Rng) *c5type {
 		// patterns: mostly at most one in the whole chain (outside the known-finding regions)
 		switch x := r.Intn(20); {
 		case x < 9:
-			t.levels[r.Intn(depth+1)].pats = []c5pat{{gen.Pick(r, c5patPool), r.Chance(1, 4)}}
+			t.levels[r.Intn(depth+1)].pats = []c5pat{{re: gen.Pick(r, c5patPool), invert: r.Chance(1, 4)}}
 		case x < 12:
-			t.levels[r.Intn(depth+1)].pats = []c5pat{{gen.Pick(r, c5patPool), r.Chance(1, 5)}, {gen.Pick(r, c5patPool), r.Chance(1, 5)}}
+			t.levels[r.Intn(depth+1)].pats = []c5pat{{re: gen.Pick(r, c5patPool), invert: r.Chance(1, 5)}, {re: gen.Pick(r, c5patPool), invert: r.Chance(1, 5)}}
 		case x < 15 && depth > 0:
 			i := r.Intn(depth)
-			t.levels[i].pats = []c5pat{{gen.Pick(r, c5patPool), r.Chance(1, 5)}}
-			t.levels[i+1+r.Intn(depth-i)].pats = []c5pat{{gen.Pick(r, c5patPool), r.Chance(1, 5)}}
+			t.levels[i].pats = []c5pat{{re: gen.Pick(r, c5patPool), invert: r.Chance(1, 5)}}
+			t.levels[i+1+r.Intn(depth-i)].pats = []c5pat{{re: gen.Pick(r, c5patPool), invert: r.Chance(1, 5)}}
 		}
 	} else {
 		var lo, hi *big.Int
@@ -936,6 +974,177 @@ func c5genType(r *gen.Rng) *c5type {
 		}
 	}
 	return t
+}
+
+// ---- generated regular expressions ------------------------------------------------------------
+//
+// A small family inside the common subset of XSD and Go regular expressions: alternatives of
+// sequences of (atom, quantifier). Generated rather than drawn from c5patPool so that an expression
+// is (almost always) new to the process, and so that members of its language can be sampled.
+
+type c5rxItem struct {
+	atom     string   // text of the atom
+	chars    []string // strings the atom matches (a sample of them)
+	quant    string
+	min, max int // repetitions to sample
+}
+
+type c5rx struct{ alts [][]c5rxItem }
+
+var c5rxAtoms = []c5rxItem{
+	{atom: "a", chars: []string{"a"}}, {atom: "b", chars: []string{"b"}}, {atom: "z", chars: []string{"z"}},
+	{atom: "x", chars: []string{"x"}}, {atom: "1", chars: []string{"1"}}, {atom: "7", chars: []string{"7"}},
+	{atom: "[a-z]", chars: []string{"a", "b", "z", "x"}},
+	{atom: "[0-9]", chars: []string{"1", "7"}},
+	{atom: ".", chars: c5alphabet},
+	{atom: "[^0-9]", chars: []string{"a", "b", "z", "x", "é", "€", "😀", "-"}},
+	{atom: "[a-zé]", chars: []string{"a", "b", "z", "x", "é"}},
+	{atom: "[abx]", chars: []string{"a", "b", "x"}},
+	{atom: "(ab)", chars: []string{"ab"}},
+	{atom: "(z|17)", chars: []string{"z", "17"}},
+}
+
+var c5rxQuants = []struct {
+	q        string
+	min, max int
+}{{"", 1, 1}, {"", 1, 1}, {"*", 0, 3}, {"+", 1, 3}, {"?", 0, 1}, {"{2,3}", 2, 3}, {"{2}", 2, 2}}
+
+func c5genRx(r *gen.Rng) *c5rx {
+	x := &c5rx{}
+	nAlts := 1
+	if r.Chance(1, 5) {
+		nAlts = 2
+	}
+	for a := 0; a < nAlts; a++ {
+		var seq []c5rxItem
+		for i, n := 0, 1+r.Intn(3); i < n; i++ {
+			it := gen.Pick(r, c5rxAtoms)
+			q := c5rxQuants[r.Intn(len(c5rxQuants))]
+			it.quant, it.min, it.max = q.q, q.min, q.max
+			seq = append(seq, it)
+		}
+		x.alts = append(x.alts, seq)
+	}
+	return x
+}
+
+func (x *c5rx) text() string {
+	parts := make([]string, len(x.alts))
+	for i, seq := range x.alts {
+		for _, it := range seq {
+			parts[i] += it.atom + it.quant
+		}
+	}
+	return strings.Join(parts, "|")
+}
+
+func (x *c5rx) sample(r *gen.Rng) string {
+	var b strings.Builder
+	for _, it := range x.alts[r.Intn(len(x.alts))] {
+		for i, n := 0, it.min+r.Intn(it.max-it.min+1); i < n; i++ {
+			b.WriteString(gen.Pick(r, it.chars))
+		}
+	}
+	return b.String()
+}
+
+// one character dropped, replaced or added
+func c5mutate(r *gen.Rng, s string) string {
+	rs := []rune(s)
+	c := []rune(gen.Pick(r, c5alphabet))
+	switch k := r.Intn(3); {
+	case k == 0 && len(rs) > 0:
+		i := r.Intn(len(rs))
+		return string(rs[:i]) + string(rs[i+1:])
+	case k == 1 && len(rs) > 0:
+		i := r.Intn(len(rs))
+		return string(rs[:i]) + string(c) + string(rs[i+1:])
+	}
+	i := r.Intn(len(rs) + 1)
+	return string(rs[:i]) + string(c) + string(rs[i:])
+}
+
+// ---- modules that repeat one expression in several pattern statements ---------------------------
+//
+// 2-4 string leaves / leaf-lists in ONE module. Every leaf has a pattern statement with the same
+// generated expression; the invert-match modifiers differ between the leaves (the assignment is
+// random but never constant). The statement sits on the leaf's own type or on a typedef of its
+// chain; a later leaf may use the typedef chain of the first. Each leaf is a case of its own: the
+// modifier (and every other restriction) of a pattern statement belongs to that statement alone.
+
+func c5sharedLevelTexts(r *gen.Rng, t *c5type) {
+	for i := range t.levels {
+		if t.levels[i].length != nil && t.levels[i].lenTxt == "" {
+			t.levels[i].lenTxt = c5exprText(r, t.levels[i].length)
+		}
+	}
+}
+
+func c5genShared(r *gen.Rng) []*c5type {
+	rxs := []*c5rx{c5genRx(r)}
+	if r.Chance(1, 3) {
+		rxs = append(rxs, c5genRx(r))
+	}
+	pat := func(x *c5rx, inv bool) c5pat { return c5pat{re: x.text(), invert: inv, rx: x} }
+	k := 2 + r.Intn(2)
+	if r.Chance(1, 4) {
+		k++
+	}
+	flags := make([]bool, k)
+	for constant := true; constant; {
+		for i := range flags {
+			flags[i] = r.Bool()
+			constant = constant && flags[i] == flags[0]
+		}
+	}
+	var ts []*c5type
+	for i := 0; i < k; i++ {
+		t := &c5type{base: "string", name: fmt.Sprintf("l%d", i+1), isList: r.Chance(1, 4)}
+		if i > 0 && len(ts[0].levels) > 1 && r.Chance(1, 4) {
+			// the typedef chain of the first leaf, with or without a pattern statement of its own
+			t.levels = append([]c5level{{}}, ts[0].levels[1:]...)
+			t.tdNames, t.noDecl = ts[0].tdNames, true
+			if r.Chance(1, 2) {
+				t.levels[0].pats = []c5pat{pat(rxs[0], flags[i])}
+			}
+		} else {
+			depth := r.Intn(3)
+			t.levels = make([]c5level, depth+1)
+			for j := 1; j <= depth; j++ {
+				t.tdNames = append(t.tdNames, fmt.Sprintf("l%dt%d", i+1, j))
+			}
+			at := r.Intn(depth + 1)
+			t.levels[at].pats = []c5pat{pat(rxs[0], flags[i])}
+			if r.Chance(1, 5) { // a second statement: same or other level, same or other expression
+				j := r.Intn(depth + 1)
+				t.levels[j].pats = append(t.levels[j].pats, pat(gen.Pick(r, rxs), r.Bool()))
+			}
+		}
+		if r.Chance(1, 2) {
+			pts := c5points(r, big.NewInt(0), big.NewInt(8), 2+r.Intn(2))
+			t.levels[0].length = c5alts(r, pts, 0, true)
+		}
+		c5sharedLevelTexts(r, t)
+		ts = append(ts, t)
+	}
+	return ts
+}
+
+func c5fixedShared() [][]*c5type {
+	lit := func(c string) c5rxItem { return c5rxItem{atom: c, chars: []string{c}, min: 1, max: 1} }
+	az := c5rxItem{atom: "[a-z]", chars: []string{"a", "b", "z", "x"}, quant: "+", min: 1, max: 3}
+	d := c5rxItem{atom: "[0-9]", chars: []string{"1", "7"}, quant: "{2}", min: 2, max: 2}
+	sys := &c5rx{alts: [][]c5rxItem{{lit("s"), lit("y"), lit("s"), lit("-"), az}}}
+	id := &c5rx{alts: [][]c5rxItem{{lit("i"), lit("d"), d}}}
+	p := func(x *c5rx, inv bool) []c5pat { return []c5pat{{re: x.text(), invert: inv, rx: x}} }
+	return [][]*c5type{{
+		// anything but a reserved name / only a reserved name; the other expression the other way round
+		{base: "string", name: "free", levels: []c5level{{pats: p(sys, true)}}},
+		{base: "string", name: "reserved", levels: []c5level{{pats: p(sys, false)}}},
+		{base: "string", name: "reserved-list", isList: true, levels: []c5level{{}, {pats: p(sys, false)}}, tdNames: []string{"reserved-name"}},
+		{base: "string", name: "ident", levels: []c5level{{}, {pats: p(id, false)}}, tdNames: []string{"ident-t"}},
+		{base: "string", name: "other", levels: []c5level{{pats: p(id, true)}}},
+	}}
 }
 
 // ---- fixed edge types included in every run ---------------------------------------------------
@@ -1080,6 +1289,20 @@ func c5scalars(r *gen.Rng, t *c5type) []c5scalar {
 		}
 		for i := 0; i < 4; i++ {
 			add(c5scalar{kind: "str", s: c5strOfLen(r, r.Intn(14))})
+		}
+		// strings of the language of a generated expression, and near misses
+		for _, l := range t.levels {
+			for _, p := range l.pats {
+				if p.rx == nil {
+					continue
+				}
+				for i := 0; i < 3; i++ {
+					add(c5scalar{kind: "str", s: p.rx.sample(r)})
+				}
+				for i := 0; i < 2; i++ {
+					add(c5scalar{kind: "str", s: c5mutate(r, p.rx.sample(r))})
+				}
+			}
 		}
 	case "decimal64":
 		for _, l := range t.levels {
@@ -1377,15 +1600,137 @@ func c5union(ctx *core.Ctx, r *gen.Rng) {
 	ctx.Hist["writes"] += 4 * len(rows)
 }
 
+// writes the candidate values of one leaf of a loaded module (nil = did not load) through every
+// write path and records the case
+func c5runType(ctx *core.Ctx, tr *gen.Rng, t *c5type, m *meta.Module, y string, loadErr error) error {
+	const maxVals = 14
+	loaded := loadErr == nil && m != nil
+	ctx.Count("base:" + t.base)
+	ctx.Count(fmt.Sprintf("depth:%d", len(t.levels)-1))
+	ctx.Count(fmt.Sprintf("leaf-list:%v", t.isList))
+	ctx.Count(fmt.Sprintf("loaded:%v", loaded))
+	var vals []c5value
+	if loaded {
+		vals = c5values(tr, t, maxVals)
+	}
+	// a value the store holds before the write: the first candidate the library accepted
+	type rowT struct {
+		pre  *c5value
+		v    c5value
+		obs  []c5obs
+		term string
+	}
+	var rows []rowT
+	var accepted []c5value
+	if loaded {
+		for _, v := range vals {
+			if o, ok := c5observe(0, t, m, nil, v); ok && o.outcome == 0 && o.store == 1 {
+				accepted = append(accepted, v)
+			}
+		}
+		for vi, v := range vals {
+			var pre *c5value
+			if len(accepted) > 0 && vi%2 == 1 {
+				for k := 0; k < len(accepted); k++ {
+					c := accepted[(vi+k)%len(accepted)]
+					if c.key() != v.key() {
+						pre = &c
+						break
+					}
+				}
+			}
+			row := rowT{pre: pre, v: v}
+			for p := range c5pathNames {
+				if o, ok := c5observe(p, t, m, pre, v); ok {
+					row.obs = append(row.obs, o)
+					ctx.Count(fmt.Sprintf("path%d:outcome%d", p, o.outcome))
+					if p == 0 && t.name != "" {
+						ctx.Count(fmt.Sprintf("shared-pattern-leaf-rows:outcome%d", o.outcome))
+					}
+				}
+			}
+			if len(row.obs) == 0 {
+				continue
+			}
+			var obsT, tobsT []string
+			for _, o := range row.obs {
+				p := emit.Pair(emit.Z(int64(o.outcome)), emit.Z(int64(o.store)))
+				if o.path == 2 {
+					tobsT = append(tobsT, p)
+				} else {
+					obsT = append(obsT, p)
+				}
+			}
+			preT := "None"
+			if pre != nil {
+				preT = emit.Some(pre.term())
+			}
+			row.term = emit.App("Row", preT, v.term(), emit.List(obsT), emit.List(tobsT))
+			rows = append(rows, row)
+		}
+	}
+	allVals := append([]c5value{}, vals...)
+	rxt, err := c5rxTable(t, allVals)
+	if err != nil {
+		return err
+	}
+	head := []string{t.baseTerm(), emit.Bool(t.isList), t.chainTerm(), t.astTerm(), rxt, emit.Bool(loaded)}
+	rowDesc := func(row rowT) map[string]interface{} {
+		var obs []string
+		for _, o := range row.obs {
+			obs = append(obs, fmt.Sprintf("%s: outcome=%d store=%d %s", c5pathNames[o.path], o.outcome, o.store, o.errText))
+		}
+		d := map[string]interface{}{"value": row.v.desc(), "observations": obs,
+			"codes": "outcome 0 accepted / 1 rejected / 2 panic; store 0 unchanged / 1 holds the written value / 2 other"}
+		if row.pre != nil {
+			d["stored_before"] = row.pre.desc()
+		}
+		return d
+	}
+	idx := ctx.N()
+	if ctx.Explode == idx && len(rows) > 0 {
+		for _, row := range rows {
+			ctx.Add(emit.App("CType", append(append([]string{}, head...), emit.List([]string{row.term}))...),
+				map[string]interface{}{"kind": "row", "module": y, "leaf": t.ident(), "write": rowDesc(row)}, true)
+		}
+		return nil
+	}
+	terms := make([]string, len(rows))
+	for i, row := range rows {
+		terms[i] = row.term
+	}
+	desc := map[string]interface{}{"kind": "table", "module": y, "leaf": t.ident(), "loaded": loaded, "values": len(rows)}
+	if loadErr != nil {
+		desc["load_error"] = loadErr.Error()
+	}
+	if len(rows) > 0 {
+		desc["first_row"] = rowDesc(rows[0])
+	}
+	ctx.Add(emit.App("CType", append(append([]string{}, head...), emit.List(terms))...), desc, len(rows) > 0 || !loaded)
+	ctx.Hist["rows"] += len(rows)
+	for _, row := range rows {
+		ctx.Hist["writes"] += len(row.obs)
+	}
+	return nil
+}
+
+func c5load(y string) (m *meta.Module, loadErr error) {
+	defer func() {
+		if rec := recover(); rec != nil {
+			m, loadErr = nil, fmt.Errorf("panic: %v", rec)
+		}
+	}()
+	return parser.LoadModuleFromString(nil, y)
+}
+
 func C05(ctx *core.Ctx) error {
 	ctx.Imports = "Restrict.RangeParse Restrict.Model Restrict.Spec Check.C05Check"
-	ctx.Rule = "one case per generated type (leaf or leaf-list, typedef chain depth 0-3, restriction expressions printed from generated syntax); rows = candidate values (every bound and its neighbours, type extremes and one beyond, random) x write paths " + strings.Join(c5pathNames, ", ") + "; distinct = by SHA-256 of the case term; non-trivial = the module loaded and at least one value was written, or the expression was invalid on purpose"
+	ctx.Rule = "one case per generated leaf (leaf or leaf-list, typedef chain depth 0-3, restriction expressions printed from generated syntax; alone in its module, or one of 2-4 string leaves of one module whose pattern statements repeat the same generated expression with differing invert-match modifiers, own or shared typedefs); rows = candidate values (every bound and its neighbours, type extremes and one beyond, strings sampled from a generated expression and their mutations, random) x write paths " + strings.Join(c5pathNames, ", ") + "; distinct = by SHA-256 of the case term; non-trivial = the module loaded and at least one value was written, or the expression was invalid on purpose"
 	r := gen.New(ctx.Seed)
 	nTypes := ctx.Scale(40, 600)
 	if ctx.Tier == "search" {
 		nTypes = 960
 	}
-	maxVals := 14
 	fixed := c5fixedTypes()
 	for ti := 0; ti < nTypes+len(fixed); ti++ {
 		tr := r.Fork(uint64(ti) + 1)
@@ -1405,124 +1750,40 @@ func C05(ctx *core.Ctx) error {
 			t = c5genType(tr)
 		}
 		y := t.yang()
-		var m *meta.Module
-		var loadErr error
-		func() {
-			defer func() {
-				if rec := recover(); rec != nil {
-					loadErr = fmt.Errorf("panic: %v", rec)
-				}
-			}()
-			m, loadErr = parser.LoadModuleFromString(nil, y)
-		}()
-		loaded := loadErr == nil && m != nil
-		ctx.Count("base:" + t.base)
-		ctx.Count(fmt.Sprintf("depth:%d", len(t.levels)-1))
-		ctx.Count(fmt.Sprintf("leaf-list:%v", t.isList))
-		ctx.Count(fmt.Sprintf("loaded:%v", loaded))
-		var vals []c5value
-		if loaded {
-			vals = c5values(tr, t, maxVals)
-		}
-		// a value the store holds before the write: the first candidate the library accepted
-		type rowT struct {
-			pre  *c5value
-			v    c5value
-			obs  []c5obs
-			term string
-		}
-		var rows []rowT
-		var accepted []c5value
-		if loaded {
-			for _, v := range vals {
-				if o, ok := c5observe(0, t, m, nil, v); ok && o.outcome == 0 && o.store == 1 {
-					accepted = append(accepted, v)
-				}
-			}
-			for vi, v := range vals {
-				var pre *c5value
-				if len(accepted) > 0 && vi%2 == 1 {
-					for k := 0; k < len(accepted); k++ {
-						c := accepted[(vi+k)%len(accepted)]
-						if c.key() != v.key() {
-							pre = &c
-							break
-						}
-					}
-				}
-				row := rowT{pre: pre, v: v}
-				for p := range c5pathNames {
-					if o, ok := c5observe(p, t, m, pre, v); ok {
-						row.obs = append(row.obs, o)
-						ctx.Count(fmt.Sprintf("path%d:outcome%d", p, o.outcome))
-					}
-				}
-				if len(row.obs) == 0 {
-					continue
-				}
-				var obsT, tobsT []string
-				for _, o := range row.obs {
-					p := emit.Pair(emit.Z(int64(o.outcome)), emit.Z(int64(o.store)))
-					if o.path == 2 {
-						tobsT = append(tobsT, p)
-					} else {
-						obsT = append(obsT, p)
-					}
-				}
-				preT := "None"
-				if pre != nil {
-					preT = emit.Some(pre.term())
-				}
-				row.term = emit.App("Row", preT, v.term(), emit.List(obsT), emit.List(tobsT))
-				rows = append(rows, row)
-			}
-		}
-		allVals := append([]c5value{}, vals...)
-		rxt, err := c5rxTable(t, allVals)
-		if err != nil {
+		m, loadErr := c5load(y)
+		if err := c5runType(ctx, tr, t, m, y, loadErr); err != nil {
 			return err
-		}
-		head := []string{t.baseTerm(), emit.Bool(t.isList), t.chainTerm(), t.astTerm(), rxt, emit.Bool(loaded)}
-		rowDesc := func(row rowT) map[string]interface{} {
-			var obs []string
-			for _, o := range row.obs {
-				obs = append(obs, fmt.Sprintf("%s: outcome=%d store=%d %s", c5pathNames[o.path], o.outcome, o.store, o.errText))
-			}
-			d := map[string]interface{}{"value": row.v.desc(), "observations": obs,
-				"codes": "outcome 0 accepted / 1 rejected / 2 panic; store 0 unchanged / 1 holds the written value / 2 other"}
-			if row.pre != nil {
-				d["stored_before"] = row.pre.desc()
-			}
-			return d
-		}
-		idx := ctx.N()
-		if ctx.Explode == idx && len(rows) > 0 {
-			for _, row := range rows {
-				ctx.Add(emit.App("CType", append(append([]string{}, head...), emit.List([]string{row.term}))...),
-					map[string]interface{}{"kind": "row", "module": y, "write": rowDesc(row)}, true)
-			}
-			continue
-		}
-		terms := make([]string, len(rows))
-		for i, row := range rows {
-			terms[i] = row.term
-		}
-		desc := map[string]interface{}{"kind": "table", "module": y, "loaded": loaded, "values": len(rows)}
-		if loadErr != nil {
-			desc["load_error"] = loadErr.Error()
-		}
-		if len(rows) > 0 {
-			desc["first_row"] = rowDesc(rows[0])
-		}
-		ctx.Add(emit.App("CType", append(append([]string{}, head...), emit.List(terms))...), desc, len(rows) > 0 || !loaded)
-		ctx.Hist["rows"] += len(rows)
-		for _, row := range rows {
-			ctx.Hist["writes"] += len(row.obs)
 		}
 	}
 	ur := r.Fork(777)
 	for i := 0; i < ctx.Scale(6, 80); i++ {
 		c5union(ctx, ur.Fork(uint64(i)+1))
+	}
+	// modules whose leaves repeat one expression in several pattern statements
+	sr := r.Fork(888)
+	nShared := ctx.Scale(6, 90)
+	if ctx.Tier == "search" {
+		nShared = 150
+	}
+	fixedShared := c5fixedShared()
+	for i := 0; i < nShared+len(fixedShared); i++ {
+		mr := sr.Fork(uint64(i) + 1)
+		var ts []*c5type
+		if i < len(fixedShared) {
+			ts = fixedShared[i]
+			ctx.Count("fixed-edge-types")
+		} else {
+			ts = c5genShared(mr)
+		}
+		y := c5moduleText(ts)
+		m, loadErr := c5load(y)
+		ctx.Count("shared-pattern-modules")
+		ctx.Count(fmt.Sprintf("shared-pattern-leaves:%d", len(ts)))
+		for li, t := range ts {
+			if err := c5runType(ctx, mr.Fork(uint64(li)+1), t, m, y, loadErr); err != nil {
+				return err
+			}
+		}
 	}
 	return nil
 }
